@@ -132,7 +132,7 @@ func (e *env) kmsSection() {
 		for _, api := range apis {
 			cat := "kms/" + tp.name
 			var prevDEK []byte
-			for i := 0; i < hlib.N(2, 12); i++ {
+			for i := 0; i < hlib.N(4, 16); i++ {
 				pt, ad := rng.Bytes(rng.MsgLen(200)), rng.Bytes(rng.Intn(20))
 				kek.deks = nil
 				var ct []byte
